@@ -89,7 +89,8 @@ def run(ctx):
     for n in ((65536, 70000) if quick else (65535, 65536, 65537, 70000)):
         for rep in range(1 if quick else 3):
             strs = [[rng.choice((97, 98, 99, 255))] + [rng.choice((97, 98, 1))] * rng.randint(0, 2) + [rng.randint(1, 255) for _ in range(rng.randint(0, 2))] for _ in range(n)]
-            for (a, s, lcp, mem) in (((0, 0, 1, 0), (5, 1, 1, 4096)) if quick else ((0, 0, 1, 0), (5, 1, 1, 4096), (0, 1, 0, 1), (5, 2, 1, 1000000), (5, 0, 0, 1))):
+            # (7 = radixsort_CI3 only runs its own 16-bit loop from 65536 strings on: tools/coverage.py showed it was never reached before)
+            for (a, s, lcp, mem) in (((0, 0, 1, 0), (5, 1, 1, 4096), (7, 0, 1, 0)) if quick else ((0, 0, 1, 0), (5, 1, 1, 4096), (0, 1, 0, 1), (5, 2, 1, 1000000), (5, 0, 0, 1), (7, 0, 1, 0), (7, 1, 0, 4000000), (7, 0, 0, 2000000))):
                 big.append(sline(a * 16 + s * 2 + lcp, mem, strs))
     for ln in lines + big:
         ctx.count_case(ln, nontrivial=int(ln.split()[2]) >= 2)
